@@ -442,7 +442,7 @@ Definition extract_default (q : quirks) (vd : vardef) (ms : list (bytes * json))
                    | _ => wrap_n (list_depth (vd_type vd)) dj
                    end
                  else dj in
-      set_member (vd_name vd) dj' ms
+      (vd_name vd, dj') :: ms   (* sjson.SetRawBytes puts a new key FIRST *)
     end
   end.
 
